@@ -71,8 +71,13 @@ fn(H1 + ".handle", params={"event": _ev.IO_EVENTS}, task="reader", model_opts={"
    ensures=[
        # C01.h11.feed: what was read is what the parser gets, once (segmentation is the parser's business)
        ("C01.h11.feed", "implies(isinstance(event, RawData) and isinstance(old(self.connection), h11.Connection), n_emitted('h11_in') == 1 and emitted('h11_in')[0] == event.data)", "C01"),
+       # C18 "a request head still incomplete after h11_max_incomplete_size bytes is rejected": h11
+       # checks the limit when it is asked for the next event, so every read is followed by the event
+       # loop -- whatever the bytes look like (also C01: what was fed is looked at; C06 / C04: errors
+       # and EOF are noticed when they arrive)
+       ("C18.h11.every-read-parsed", "implies(isinstance(event, RawData), count_calls('H11Protocol._handle_events') == 1)", "C18,C01,C04,C06"),
    ],
-   props=("C04", "C13", "C01"))
+   props=("C04", "C13", "C01", "C18"))
 
 STREAM_HANDLE = "(c[0] == 'HTTPStream.handle' or c[0] == 'WSStream.handle')"
 fn(H1 + "._handle_events", params={}, task="reader", model_opts={"h11_server_headers_ok": True},
@@ -289,7 +294,7 @@ fn(PW + ".handle", params={"event": _ev.IO_EVENTS}, task="reader", model_opts=PW
        # request), and that -- not the read that triggered the switch -- is what HTTP/2 is given
        ("C13.handover.bytes", "implies(call_index('H2Port.initiate') >= 0, "
         "count_calls('H2Port.handle') == (1 if len(call_raised('H11Port.handle').data) != 0 else 0) "
-        "and implies(count_calls('H2Port.handle') == 1, isinstance(call_args('H2Port.handle')[1], RawData) and call_args('H2Port.handle')[1].data == call_raised('H11Port.handle').data))", "C13"),
+        "and implies(count_calls('H2Port.handle') == 1, isinstance(call_args('H2Port.handle')[1], RawData) and call_args('H2Port.handle')[1].data == call_raised('H11Port.handle').data))", "C13,C01"),
        ("C13.handover.h2c-request", "implies(call_index('H2Port.initiate') >= 0 and isinstance(call_raised('H11Port.handle'), H2CProtocolRequiredError), "
         "same(call_args('H2Port.initiate')[1], call_raised('H11Port.handle').headers) and same(call_args('H2Port.initiate')[2], call_raised('H11Port.handle').settings))", "C13"),
        ("C13.handover.only-after-h11-says-so", "implies(call_index('H2Port.initiate') >= 0, isinstance(old(self.protocol), H11Protocol))", "C13"),
